@@ -84,7 +84,7 @@ def power(x1: PolyLike, x2: PolyLike, **kwargs: Any) -> ndpoly:
         )
         # square-and-multiply: the number of products grows with the logarithm
         # of the exponent, not with the exponent
-        count, base = x2.item(), x1
+        count, base = x2.item(), x1.astype(dtype)
         while count:
             if count & 1:
                 out = numpoly.multiply(out, base, **kwargs)
